@@ -6,6 +6,7 @@ import subprocess
 import tempfile
 
 from . import common as C
+from . import utf8fam as U
 from . import c08
 from .lexmodel import Dfa
 
@@ -63,6 +64,205 @@ func main() {
 	}
 }
 '''
+
+PROBE_GO = '''package %(pkg)s
+
+import (
+	"bytes"
+	"errors"
+	"io"
+)
+
+// VerifDecodeAll (added by the verification harness to the scratch copy of the emitted package) reads characters with the
+// emitted reader until it fails: the code points, the column counter after each, and how it ended.
+func VerifDecodeAll(bs []byte, half int) ([]int32, []int, string) {
+	in, err := newInput("p", bytes.NewReader(bs), half)
+	if err != nil {
+		if errors.Is(err, io.EOF) {
+			return nil, nil, "eof"
+		}
+		return nil, nil, "error"
+	}
+	var rs []int32
+	var cols []int
+	for n := 0; n < 100000; n++ {
+		r, err := in.Next()
+		if err != nil {
+			if errors.Is(err, io.EOF) {
+				return rs, cols, "eof"
+			}
+			var ie *InputError
+			if errors.As(err, &ie) {
+				return rs, cols, "invalid"
+			}
+			return rs, cols, "error"
+		}
+		rs = append(rs, int32(r))
+		cols = append(cols, in.nextColumn)
+	}
+	return rs, cols, "loop"
+}
+'''
+
+PROBE_MAIN = '''package main
+
+import (
+	"bufio"
+	"encoding/hex"
+	"encoding/json"
+	"fmt"
+	"os"
+
+	lx "emitted/%(pkg)s"
+)
+
+func main() {
+	sc := bufio.NewScanner(os.Stdin)
+	sc.Buffer(make([]byte, 1<<20), 1<<20)
+	for sc.Scan() {
+		bs, _ := hex.DecodeString(sc.Text())
+		rs, cols, end := lx.VerifDecodeAll(bs, 4096)
+		b, _ := json.Marshal(map[string]any{"runes": rs, "cols": cols, "end": end})
+		fmt.Println(string(b))
+	}
+}
+'''
+
+PROBE_V = """(* GENERATED: the emitted reader's Next on probe byte strings vs the Coq decoder model (Reg/Utf8.v) on the translated tables *)
+From Coq Require Import List Bool Arith NArith.
+From Verif Require Import Reg.Utf8 Reg.MaxMunch.
+From VerifGen Require Import Utf8Go.
+Import ListNotations.
+Local Open Scope N_scope.
+Definition dec := decode u_first u_accept u_xx u_as u_locb u_hicb u_maskx u_mask2 u_mask3 u_mask4.
+(* characters until the decoder stops, and why it stops: 0 end of input, 1 invalid *)
+Fixpoint run (fuel : nat) (bs : list N) : list N * N :=
+  match fuel with
+  | O => ([], 2)
+  | S f => match dec bs with
+           | DOk c n => let '(cs, e) := run f (skipn n bs) in (c :: cs, e)
+           | DEof => ([], 0)
+           | DInvalid => ([], 1)
+           end
+  end.
+Fixpoint nl_eqb (a b : list N) : bool :=
+  match a, b with [], [] => true | x :: a', y :: b' => (x =? y) && nl_eqb a' b' | _, _ => false end.
+Definition agrees (c : list N * list N * N) : bool :=
+  let '(bs, cs, e) := c in
+  let '(ms, me) := run (S (length bs)) bs in nl_eqb ms cs && (me =? e).
+Definition cases : list (list N * list N * N) := [
+%s
+].
+Definition M := Eval vm_compute in mismatches agrees 0 cases.
+Print M.
+"""
+
+
+def utf8_probes(rng, tier):
+    """Byte strings without NUL (the reader's end marker): valid encodings at every length boundary, every kind of malformed
+    sequence, truncations at the end of the input, random bytes."""
+    def enc(c):
+        return list(chr(c).encode("utf-8"))
+    probes = []
+    edges = [1, 0x7F, 0x80, 0x7FF, 0x800, 0xFFF, 0x1000, 0xD7FF, 0xE000, 0xFFFD, 0xFFFF, 0x10000, 0x3FFFF, 0x40000, 0xFFFFF, 0x100000, 0x10FFFF,
+             0xE9, 0x20AC, 0x1F600, 10, 13, 9, 32]
+    for c in edges:
+        probes.append(enc(c))
+        probes.append([0x61] + enc(c) + [0x62])
+        for cut in range(1, len(enc(c))):
+            probes.append(enc(c)[:cut])                      # truncated at the end of the input
+            probes.append(enc(c)[:cut] + [0x41])             # a continuation byte replaced by a letter
+    bad = [[0x80], [0xBF], [0xC0, 0x80], [0xC1, 0xBF], [0xE0, 0x80, 0x80], [0xE0, 0x9F, 0xBF], [0xED, 0xA0, 0x80], [0xED, 0xBF, 0xBF],
+           [0xF0, 0x80, 0x80, 0x80], [0xF0, 0x8F, 0xBF, 0xBF], [0xF4, 0x90, 0x80, 0x80], [0xF5, 0x80, 0x80, 0x80], [0xFE], [0xFF],
+           [0xE2, 0x28, 0xA1], [0xE2, 0x82, 0x28], [0xF0, 0x28, 0x8C, 0xBC], [0xF0, 0x90, 0x28, 0xBC], [0xF0, 0x90, 0x8C, 0x28],
+           [0xC2], [0xE2, 0x82], [0xF0, 0x9F, 0x98]]
+    for b in bad:
+        probes.append(b)
+        probes.append([0x78] + b + [0x79])
+    for lead in range(0x80, 0x100):                          # every non-ASCII lead byte with the extreme second bytes
+        for b1 in (0x7F, 0x80, 0x8F, 0x90, 0x9F, 0xA0, 0xBF, 0xC0):
+            probes.append([lead, b1, 0x80, 0x80])
+    for _ in range(300 if tier == "quick" else 6000):
+        k = rng.random()
+        if k < 0.5:
+            cps = [rng.choice([rng.randint(1, 0x7F), rng.randint(0x80, 0x7FF), rng.randint(0x800, 0xD7FF), rng.randint(0xE000, 0xFFFF),
+                               rng.randint(0x10000, 0x10FFFF)]) for _ in range(rng.randint(1, 8))]
+            probes.append([b for c in cps for b in enc(c)])
+        elif k < 0.8:
+            bs = [b for c in [rng.randint(0x80, 0x10FFFF) for _ in range(3)] if not 0xD800 <= c <= 0xDFFF for b in enc(c)]
+            if bs:
+                i = rng.randrange(len(bs))
+                bs[i] = rng.randint(1, 255)
+                probes.append(bs)
+        else:
+            probes.append([rng.randint(1, 255) for _ in range(rng.randint(1, 6))])
+    return [p_ for p_ in probes if p_ and 0 not in p_]
+
+
+def probe_reader(rep, mod, scratch, name, rng, tier):
+    """Compile the probe into the scratch copy of package `name`, run it, compare with the Coq decoder on the translated tables."""
+    with open(os.path.join(mod, name, "zz_verif_probe.go"), "w") as f:
+        f.write(PROBE_GO % {"pkg": name})
+    os.makedirs(os.path.join(mod, "cmd_probe"))
+    with open(os.path.join(mod, "cmd_probe", "main.go"), "w") as f:
+        f.write(PROBE_MAIN % {"pkg": name})
+    drv = os.path.join(scratch, "drv_probe")
+    b = C.run(["go", "build", "-o", drv, "./cmd_probe"], cwd=mod, env=C.go_env_local(), timeout=300)
+    if b.returncode != 0:
+        rep.obligation("UTF-8 probe of the emitted reader compiles", False)
+        rep.violation("probe", {"theorem": "the probe of the emitted reader (newInput / Next / InputError / nextColumn) does not compile",
+                                "log": b.stderr[-1200:]}, no_input=True)
+        return
+    probes = utf8_probes(rng, tier)
+    pr = subprocess.run([drv], input="\n".join(bytes(p_).hex() for p_ in probes) + "\n", stdout=subprocess.PIPE, stderr=subprocess.PIPE,
+                        text=True, timeout=300)
+    lines = pr.stdout.strip().split("\n") if pr.stdout.strip() else []
+    if len(lines) != len(probes):
+        i = len(lines)
+        rep.obligation("UTF-8 probe of the emitted reader runs", False)
+        rep.failure("probe-crash", {"probe-crash"}, {"input_bytes_hex": bytes(probes[min(i, len(probes) - 1)]).hex(),
+                                                     "why": "the emitted reader crashed while decoding: " + pr.stderr[-400:]})
+        return
+    cases, colbad = [], []
+    endcode = {"eof": 0, "invalid": 1}
+    for p_, line in zip(probes, lines):
+        o = json.loads(line)
+        rs = o.get("runes") or []
+        cases.append((p_, rs, endcode.get(o.get("end"), 9)))
+        col, exp = 1, []
+        for r in rs:
+            col = 1 if r == 10 else col + 1
+            exp.append(col)
+        if exp != (o.get("cols") or []):
+            colbad.append((p_, o))
+    paths = []
+    for o in range(0, len(cases), 400):
+        path = os.path.join(C.GEN, "cases_C19_utf8_%d.v" % (o // 400))
+        with open(path, "w") as f:
+            f.write(PROBE_V % ";\n".join("(%s, %s, %d)" % (C.coq_nat_list(p_), C.coq_nat_list(rs), e) for p_, rs, e in cases[o:o + 400]))
+        paths.append(path)
+    badidx, cerr = [], None
+    for k, (okc, out) in enumerate(C.coqc_many(paths)):
+        m = C.parse_mismatches(out) if okc else None
+        if m is None:
+            cerr = out[-1500:]
+            break
+        badidx.extend(400 * k + x for x in m)
+    rep.cov["utf8_probes"] = {"byte_strings": len(probes), "ended_invalid": sum(1 for c in cases if c[2] == 1),
+                              "ended_at_end_of_input": sum(1 for c in cases if c[2] == 0), "characters": sum(len(c[1]) for c in cases)}
+    rep.obligation("emitted reader's Next == Coq decoder (translated tables) on %d byte strings: characters, malformed sequences, truncations"
+                   % len(probes), cerr is None and not badidx)
+    rep.obligation("the column counter advances by one per character of any length and restarts after a line feed (%d byte strings)" % len(probes),
+                   not colbad)
+    if cerr is not None:
+        rep.violation("cases", {"theorem": "gen/cases_C19_utf8_*.v does not compile", "log": cerr}, no_input=True)
+    for i in badidx[:2]:
+        rep.failure("utf8", {"utf8"}, {"input_bytes_hex": bytes(cases[i][0]).hex(), "observed_characters": cases[i][1],
+                                       "observed_end": {0: "end of input", 1: "invalid"}.get(cases[i][2], "other"),
+                                       "why": "the emitted reader and the decoder model disagree on this byte string"})
+    for p_, o in colbad[:2]:
+        rep.failure("column", {"column"}, {"input_bytes_hex": bytes(p_).hex(), "observed": o})
+
 
 CASES_V = """(* GENERATED: the compiled emitted lexer vs the Coq model of its loop on the same automaton and texts *)
 From Coq Require Import String List Bool Arith NArith.
@@ -179,11 +379,19 @@ def case_term(cps, obs):
 def check(tier):
     rep = C.Report(PROP, tier, "proof")
     rng = C.rng_for(PROP)
+    try:
+        U.regen()
+        uok = True
+    except C.BuildError as e:
+        uok = False
+        rep.obligation("translate the UTF-8 tables of input.go.tmpl", False)
+        rep.violation("translator", {"theorem": "gen/Utf8Go.v cannot be regenerated", "detail": str(e)}, no_input=True)
     ok, log = C.coq_make(["theories/Props/C19.vo"])
-    for t in ["emitted_stream", "emitted_stream_unique", "emitted_reader_exact", "emitted_reader_with_retract_exact"]:
+    for t in ["emitted_stream", "emitted_stream_unique", "emitted_reader_exact", "emitted_reader_with_retract_exact",
+              "every_character_is_decoded (all 1,112,064 scalar values, checked by the kernel)", "every_text_is_read_back"]:
         rep.obligation("Props/C19.v: " + t, ok)
-    rep.cov["partial"] = ["the reader theorems are at byte level: UTF-8 decoding of the emitted Next() (a character = up to 4 calls of next()) is "
-                          "exercised by the runs, not modelled",
+    rep.cov["partial"] = ["the decoder theorem covers every VALID encoding (all inputs the property quantifies over); what the reader does with "
+                          "malformed bytes is compared with the model per probe, not characterised by a theorem",
                           "the model of the repaired reader is tied to the template by the compile-and-run sweep, not by a translator"]
     C.build_tools()
     exe = c08.emerge_binary()
@@ -217,6 +425,8 @@ def check(tier):
                 rep.failure("compile", {"compile"}, {"input_text": spec, "why": "the emitted package does not compile: " + b.stderr[-600:]})
                 continue
             dist["packages"] += 1
+            if dist["packages"] == 1 and uok:
+                probe_reader(rep, mod, scratch, name, rng, tier)
             dfa = Dfa(dump["dfa"]["start"], dump["dfa"]["trans"])
             owner = {q: t for t, qs in dump["term_map"].items() for q in qs}
             # inputs: every fragment alone, pairs, random compositions, with and without a final newline
